@@ -27,7 +27,10 @@ def sized_list(elem, lo, hi, small=12):
     """Mostly short lists (fast, shrink well), sometimes anywhere up to hi."""
     return st.one_of(st.lists(elem, min_size=lo, max_size=min(hi, small)),
                      st.lists(elem, min_size=lo, max_size=min(hi, small)),
-                     st.lists(elem, min_size=lo, max_size=hi))
+                     st.lists(elem, min_size=lo, max_size=min(hi, small)),
+                     st.lists(elem, min_size=lo, max_size=hi),
+                     st.lists(elem, min_size=max(lo, hi - 1), max_size=hi),      # the largest legal sizes
+                     st.lists(elem, min_size=hi, max_size=hi))
 
 
 def hexbytes(lo, hi, even=False, small=10):
@@ -191,11 +194,16 @@ def block(draw, bits, max_size=60):
 
 
 @st.composite
-def layout(draw, max_size=60):
+def layout(draw, max_size=60, allow_default=False):
     share = draw(st.sampled_from([None, None, None, 'bits', 'regs', 'both']))
-    return {'zero_mode': draw(st.booleans()), 'share': share,
-            'tables': {'c': draw(block(True, max_size)), 'd': draw(block(True, max_size)),
-                       'h': draw(block(False, max_size)), 'i': draw(block(False, max_size))}}
+    tables = {'c': draw(block(True, max_size)), 'd': draw(block(True, max_size)),
+              'h': draw(block(False, max_size)), 'i': draw(block(False, max_size))}
+    if allow_default and draw(st.integers(0, 5)) == 0:
+        # some (or all) tables left to the library default: ModbusSlaveContext() builds them itself
+        for k in draw(st.lists(st.sampled_from('cdhi'), min_size=2, max_size=4, unique=True)):
+            tables[k] = {'shape': 'default'}
+        share = None
+    return {'zero_mode': draw(st.booleans()), 'share': share, 'tables': tables}
 
 
 def runs(cells):
